@@ -17,7 +17,7 @@ impl Exponential {
     /// # Errors
     /// Panics if `lambda <= 0`.
     pub fn new(lambda: f64) -> Self {
-        if lambda <= 0. {
+        if !(lambda > 0.) {
             panic!("Lambda must be positive.");
         }
         Exponential {
@@ -26,7 +26,7 @@ impl Exponential {
         }
     }
     pub fn set_lambda(&mut self, lambda: f64) -> &mut Self {
-        if lambda <= 0. {
+        if !(lambda > 0.) {
             panic!("Lambda must be positive.")
         }
         self.lambda = lambda;
